@@ -135,7 +135,7 @@ PROPS = {
         title="Privileged endpoints reject everyone but their intended callers",
         lean=["LP.Props.C15"],
         profiles=[("perm", ALL_VARIANTS), ("life", ALL_VARIANTS)],
-        R={"st": (ANY, PERM_MSGS)},
+        R={"st": (ANY, PERM_MSGS), "abi": ANY},
         D={"sup": ANY},
     ),
     "C16": dict(
